@@ -64,6 +64,26 @@ def gen(rng, A, count):
             v = rng.choice(["7ff8000000000000", "7ff0000000000000", "fff0000000000000"])
             p["inj"] = ",".join("%d:%s" % (k, v) for k in ks + [ks[0] + 1])
             out.append(p)
+    # extreme configurations: initial steps whose ratios overflow / underflow (the rescaling layer of COBYLA / BOBYQA rejects them on its
+    # own return path), huge and tiny steps, steps far wider than the box — every rejection path must free its workspace
+    for nm in names:
+        for rep in range(max(2, count // 200)):
+            n = rng.choice([2, 3, 5, 12])
+            if nm == "NLOPT_GN_AGS":
+                n = rng.choice([2, 3])
+            p = problems.gen_problem(rng, A, alg_name=nm, n=n, maxeval=rng.choice([10, 40]), box="finite")
+            kind = rep % 3
+            if kind == 0:
+                dx = [1e-200] * n
+                dx[rng.randrange(n)] = 1e200
+                if rng.random() < 0.5:
+                    dx = [1e200 if v == 1e-200 else 1e-200 for v in dx]
+            elif kind == 1:
+                dx = [rng.choice([1e300, 1e-300, 5e-324, 1e155, -1e200]) for _ in range(n)]
+            else:
+                dx = [rng.choice([1e3, 1e6, -1e4]) * (1 + i) for i in range(n)]
+            p["dx"] = dx
+            out.append(p)
     return out
 
 
